@@ -42,6 +42,10 @@ def register(COMPONENTS, g):
         return comp_generic("effects", tier, seed, NPROC, ["-spok", os.path.join(BUILD, "spok")], "effects", 900 if tier == "quick" else 3000)
     COMPONENTS["effects"] = comp_effects
 
+    def comp_cst(tier, seed):
+        return comp_generic("cst", tier, seed, NPROC, [], "cst", 900 if tier == "quick" else 3000)
+    COMPONENTS["cst"] = comp_cst
+
 
 def register_props(PROPS, g):
     import subprocess
@@ -144,6 +148,18 @@ def register_props(PROPS, g):
                                     "task execution is sequential in the computed order (it is a plain loop in SpokFile.run)"],
                     "trusted_extra": ["the observed execution order of the real spok is validated with the extracted checker valid_order (C03_checker)"]}
     # C18 is about the pool's control behaviour (finishes, result kind, no leak); which digest comes out is C04's business
+    PROPS["C06"] = {"components": ["cst"], "oracle": ["C06"], "decode": "hex",
+                    "nontrivial": ("distinct_nontrivial", "distinct rendered files with at least two statements"),
+                    "rule": "random concrete syntax trees (structure + layout): variables with string / call / identifier values, comments, tasks with docstring, "
+                            "dependencies, bare or parenthesised outputs, one-line / multi-line / empty bodies; layout drawn per position from spaces, tabs, LF, CRLF, lone CR, "
+                            "blank lines, trailing commas, missing final newline, statements without separating newline, non-ASCII letters in names, strings and commands. "
+                            "Each tree is rendered by the harness and by the model (texts compared), parsed by the real parser and by the model (trees compared), and every "
+                            "tree is checked to lie in the class the theorem covers (cst_wf_b, proved sound)",
+                    "exhaustive_part": False,
+                    "exhaustive_note": "random generation only; the theorem, not enumeration, covers the class",
+                    "assumptions": ["admissible layout = the class cst_wf of coq/theories (Cst.v, RoundTripL.v): it is what the lexer's state machine accepts, e.g. no line end directly after a string inside an argument list, "
+                                    "commands are ASCII after their first letter and contain '}' only inside {{.NAME}}"],
+                    "trusted_extra": ["the harness's renderer is compared with the model's render on every case (field 0)"]}
     PROPS["C18"] = {"components": ["hash"], "oracle": ["C18"], "decode": None,
                     "relevant": (lambda m: (m[2].split() or [""])[0] != (m[3].split() or [""])[0]),
                     "nontrivial": ("distinct_nontrivial", "distinct path lists with at least two entries"),
